@@ -347,8 +347,10 @@ def verify_contract(contract, shape, tier, rng, part=(0, 1), crosscheck=4):
             elif r == 'sat':
                 w = model_value(m, inputs)
                 ok, failed, info = native_check(contract, w, shape)
-                out.append(ob(oid, 'refuted' if not ok else 'fault', functions=funcs, tier='P', time_s=dt, backend=be,
-                              witness=jsonable(w), detail=f'clause {cname} fails for this input',
+                # a counter-model of the symbolic run that the native run does not confirm: the symbolic execution (stubs / NumPy models) does not
+                # describe this version of the code faithfully -> undecided, marked engine_suspect (never a violation, never a reason for a non-zero exit)
+                out.append(ob(oid, 'refuted' if not ok else 'undecided', functions=funcs, tier='P', time_s=dt, backend=be, engine_suspect=bool(ok),
+                              witness=jsonable(w) if not ok else None, detail=f'clause {cname} fails for this input' + ('' if not ok else ' in the SYMBOLIC run only; the native run on the same input satisfies the contract (ENGINE-SUSPECT: stubs / models do not follow this version of the code)'),
                               native=dict(confirmed=not ok, failed=failed, info=info)))
             else:
                 out.append(ob(oid, 'undecided', functions=funcs, tier='P', time_s=dt, backend=be, detail='solver unknown/timeout'))
@@ -362,7 +364,7 @@ def verify_contract(contract, shape, tier, rng, part=(0, 1), crosscheck=4):
                 break
             subs = subs_of(inputs, conc)
             if not z3.is_true(eval_under(pre, subs)):
-                out.append(ob(f'{base}.crosscheck[{sh}]', 'fault', functions=funcs, tier='P',
+                out.append(ob(f'{base}.crosscheck[{sh}]', 'undecided', engine_suspect=True, functions=funcs, tier='P',
                               detail='sampler produced an input violating the precondition', witness=jsonable(conc)))
                 break
             ok, failed, info = native_check(contract, conc, shape)
@@ -377,7 +379,7 @@ def verify_contract(contract, shape, tier, rng, part=(0, 1), crosscheck=4):
                     hit = p
                     break
             if hit is None:
-                out.append(ob(f'{base}.crosscheck[{sh}]', 'fault', functions=funcs, tier='P', witness=jsonable(conc),
+                out.append(ob(f'{base}.crosscheck[{sh}]', 'undecided', engine_suspect=True, functions=funcs, tier='P', witness=jsonable(conc),
                               detail='no explored path covers a sampled input (exploration not exhaustive)'))
                 break
             if hit.exc is None:
@@ -385,7 +387,7 @@ def verify_contract(contract, shape, tier, rng, part=(0, 1), crosscheck=4):
                 cmp_sym = contract.comparable(hit.result) if hasattr(contract, 'comparable') else hit.result
                 cmp_nat = contract.comparable(nat) if hasattr(contract, 'comparable') else nat
                 if not sym_equal_concrete(cmp_sym, cmp_nat, subs):
-                    out.append(ob(f'{base}.crosscheck[{sh}]', 'fault', functions=funcs, tier='P', witness=jsonable(conc),
+                    out.append(ob(f'{base}.crosscheck[{sh}]', 'undecided', engine_suspect=True, functions=funcs, tier='P', witness=jsonable(conc),
                                   detail='symbolic result differs from native execution (engine unsound here)'))
                     break
             nx += 1
